@@ -180,45 +180,65 @@ Example sort_example :
 Proof. vm_compute. reflexivity. Qed.
 
 (* ---------------- attributes of the xsl:sort children ---------------- *)
+(* in every configuration of the source *)
 Theorem key_attrs_other_independent : forall es ks,
     sort_attrs es = Some ks ->
     exists oks, own_keys es = Some oks /\ map (set_lang []) ks = map (set_lang []) oks.
 Proof. exact SortAttrs.key_attrs_other_independent. Qed.
 Print Assumptions key_attrs_other_independent.
 
-Theorem key_attrs_lang_is_last_scratch : forall es ks,
+Theorem key_attrs_errors_are_own : forall es, sort_attrs es = None <-> own_keys es = None.
+Proof. exact sort_attrs_error_iff. Qed.
+Print Assumptions key_attrs_errors_are_own.
+
+(* The language of a key.  GenSort.v records how sortChildren and NodeSortKey treat the lang
+   scratch string.  The theorems below cover the two coherent configurations; this example checks
+   that the current source is in one of them.  At the time of writing it is the first one (one
+   string shared by all keys: known finding K-C16-1; the check's evidence records which one is
+   live as "lang_configuration"). *)
+Example source_lang_configuration_is_covered :
+  (lang_fresh = false /\ lang_aliased = true) \/ (lang_fresh = true /\ lang_aliased = false).
+Proof. first [ left; split; reflexivity | right; split; reflexivity ]. Qed.
+
+Theorem key_attrs_lang_is_last_scratch : lang_fresh = false -> lang_aliased = true -> forall es ks,
     sort_attrs es = Some ks -> Forall (fun k => k_lang k = final_lang es) ks.
-Proof. exact sort_attrs_lang. Qed.
+Proof. intros _ A. exact (sort_attrs_lang A). Qed.
 Print Assumptions key_attrs_lang_is_last_scratch.
 
-(* full statement "every key is evaluated from its own attributes" is violated by the code: the
-   second key has no lang attribute but sorts with lang="sv" *)
+(* the full statement "every key is evaluated from its own attributes" is violated by the code as
+   it is: the second key has no lang attribute but sorts with lang="sv" *)
 Definition sv : str := [115; 118]%N.
 Definition two_keys : list sort_elem :=
   [ {| se_lang := AvtSimple sv; se_dtype := AvtSimple s_text; se_order := AvtSimple s_ascending; se_case := AvtAbsent |};
     {| se_lang := AvtAbsent; se_dtype := AvtSimple s_text; se_order := AvtSimple s_ascending; se_case := AvtAbsent |} ].
 
-Theorem key_attrs_independent_refuted :
+Theorem key_attrs_independent_refuted : lang_fresh = false -> lang_aliased = true ->
   exists es ks oks, sort_attrs es = Some ks /\ own_keys es = Some oks /\ ks <> oks
                     /\ map k_lang ks = [sv; sv] /\ map k_lang oks = [sv; []].
 Proof.
-  exists two_keys. eexists. eexists. split; [vm_compute; reflexivity|]. split; [vm_compute; reflexivity|].
+  intros F A. exists two_keys.
+  assert (O : own_keys two_keys = Some [ {| k_num := false; k_desc := false; k_case := CaseDefault; k_lang := sv |};
+                                         {| k_num := false; k_desc := false; k_case := CaseDefault; k_lang := [] |} ])
+    by (vm_compute; reflexivity).
+  assert (L : final_lang two_keys = sv).
+  { rewrite final_lang_fold. simpl. rewrite !(lang_step_shared F). reflexivity. }
+  eexists. eexists. split; [rewrite (sort_attrs_char A), O, L; reflexivity|]. split; [exact O|].
   split; [discriminate|]. split; reflexivity.
 Qed.
 Print Assumptions key_attrs_independent_refuted.
 
-Theorem key_attrs_independent_partial : forall es oks,
+Theorem key_attrs_independent_partial : lang_fresh = false -> lang_aliased = true -> forall es oks,
     own_keys es = Some oks -> (sort_attrs es = Some oks <-> langs_independent es = true).
-Proof. exact SortAttrs.key_attrs_independent_partial. Qed.
+Proof. intros _ A. exact (SortAttrs.key_attrs_independent_partial A). Qed.
 Print Assumptions key_attrs_independent_partial.
 
-Theorem key_attrs_independent_without_lang : forall es,
+Theorem key_attrs_independent_without_lang : lang_fresh = false -> forall es,
     Forall (fun e => se_lang e = AvtAbsent) es -> langs_independent es = true.
-Proof. exact no_lang_independent. Qed.
+Proof. intros F. exact (no_lang_independent F). Qed.
 Print Assumptions key_attrs_independent_without_lang.
 
-Theorem key_attrs_independent_single_key : forall e, langs_independent [e] = true.
-Proof. exact single_key_independent. Qed.
+Theorem key_attrs_independent_single_key : lang_fresh = false -> forall e, langs_independent [e] = true.
+Proof. intros F. exact (single_key_independent F). Qed.
 Print Assumptions key_attrs_independent_single_key.
 
 Example guard_is_satisfiable_and_exact :
@@ -226,3 +246,10 @@ Example guard_is_satisfiable_and_exact :
   langs_independent [ {| se_lang := AvtSimple sv; se_dtype := AvtAbsent; se_order := AvtAbsent; se_case := AvtAbsent |};
                       {| se_lang := AvtSimple sv; se_dtype := AvtParts s_number; se_order := AvtAbsent; se_case := AvtAbsent |} ] = true.
 Proof. split; vm_compute; reflexivity. Qed.
+
+(* for a source in which every key has its own, initially empty, language string the full
+   statement holds (see source_lang_configuration_is_covered) *)
+Theorem key_attrs_independent_when_repaired : lang_fresh = true -> lang_aliased = false ->
+    forall es, sort_attrs es = own_keys es.
+Proof. exact key_attrs_independent_full. Qed.
+Print Assumptions key_attrs_independent_when_repaired.
